@@ -125,3 +125,30 @@ def on_path(ctx, qualnames):
                 ids.add(id(g.node))
         cache[key] = ids
     return cache[key]
+
+
+def no_one_shot_state(ctx, rule, module_names=None):
+    """No object of kernpy keeps a one-shot iterator in its state: `self.x = (generator)`, `map(...)`, `filter(...)`, `zip(...)`,
+    `iter(...)`, `reversed(...)`, `enumerate(...)`.  Such a value is consumed by its first reader; the second read of the same object
+    (a second export, a second query) sees nothing."""
+    lazy = {'map', 'filter', 'zip', 'iter', 'reversed', 'enumerate'}
+    n = 0
+    for f in ctx.prog.all_functions():
+        if f.module.generated or f.cls is None or (module_names and f.module.name not in module_names):
+            continue
+        for node in walk_local(f.node):
+            if not isinstance(node, (ast.Assign, ast.AnnAssign)) or node.value is None:
+                continue
+            tgs = node.targets if isinstance(node, ast.Assign) else [node.target]
+            if not any(isinstance(t, ast.Attribute) and isinstance(t.value, ast.Name) and t.value.id in ('self', 'cls') for t in tgs):
+                continue
+            n += 1
+            v = node.value
+            one_shot = isinstance(v, ast.GeneratorExp) or (isinstance(v, ast.Call) and isinstance(v.func, ast.Name) and v.func.id in lazy
+                                                           and ctx.prog.resolve(f.module, v.func.id) is None)
+            if one_shot:
+                ctx.violation(rule, f'{f.module.relpath}:{node.lineno}', f.qualname, f'one-shot-iterator-stored:{src(tgs[0])}',
+                              f'`{src(node)[:90]}` keeps a one-shot iterator in the object: the first read consumes it, every later read of '
+                              f'the same object finds it empty')
+    ctx.count(f'{rule}.attribute_stores_checked', n)
+
